@@ -30,6 +30,9 @@ PROPS['C07'] = dict(
          'string needing escapes; distinct = distinct model hash',
     jobs=c07_jobs,
     min_evaluations=dict(quick=50000, thorough=1000000),
+    technique='differential runtime monitoring: library serializer against library deserializer on generated documents under ASan+UBSan, judged on values extracted through the public API',
+    level_text='Exploration: every generated document is pushed through the three round trips of the statement and the extracted trees are compared (floats per C12, MessagePack bytes for identity); held on the documents observed, nothing more.',
+    level_note='Trusts the extraction through is<T>/as<T>/iteration (itself checked against the model by C04) and the strict reference JSON parser used only to read back the float literals.',
     assumptions=COMMON_ASSUME + ['extraction through the public read API is faithful (cross-checked by C04)',
                                  'doubles that are exactly floats are printed with float accuracy by design (DESIGN.md don\'t-care 13)'],
 )
